@@ -22,10 +22,11 @@ CONSTANTS
   Nfs = %(nfs)s
   Exported = %(exported)s
   Slow = %(slow)s
+  Denied = %(denied)s
   Mutant = "%(mutant)s"
 %(tail)s
 """
-SAFETY = "INVARIANTS TypeOK CountMatches CountedOnce GoneUncounted Bounded ServedAreCounted AfterStop AfterClose\nPROPERTIES NothingAfterStop NoReapMidCall"
+SAFETY = "INVARIANTS TypeOK CountMatches CountedOnce GoneUncounted RefusedUncounted Bounded ServedAreCounted AfterStop AfterClose\nPROPERTIES NothingAfterStop NoReapMidCall"
 
 TRACE_TLA = """---- MODULE MCConnMgrTrace ----
 EXTENDS ConnMgrTrace
@@ -45,6 +46,7 @@ CONSTANTS
   Nfs <- TNfs
   Exported = FALSE
   Slow = {}
+  Denied = {}
   Mutant = "none"
   KnownDeviations = %(known)s
   Mode = "%(mode)s"
@@ -53,7 +55,7 @@ CONSTANTS
 
 
 def mc(ctx, name, **kw):
-    d = dict(spec="Spec", conns="{1, 2}", max=1, stops="{1}", nfs="{}", exported="TRUE", slow="{}", idlet=1, mutant="none", tail=SAFETY)
+    d = dict(spec="Spec", conns="{1, 2}", max=1, stops="{1}", nfs="{}", exported="TRUE", slow="{}", denied="{}", idlet=1, mutant="none", tail=SAFETY)
     d.update(kw)
     return ctx.write_cfg("ConnMgr", name, MC_CFG % d)
 
@@ -64,6 +66,8 @@ def exhaustive(ctx):
     # measured (distinct states): 2 conns / 1 Stop: 1.8e5; 1 conn / 2 Stops / 1 Close: 7.1e4; 2 conns / 2 Stops / 1 Close: 4.3e6;
     # 3 conns / Max 2 / 1 Stop / IdleT 0: 5.8e6 (with IdleT 1: 1.8e7, 7 min); a slow and a fast conn / 1 Stop / 1 Close: 1.1e6
     ctx.tlc_exhaustive("ConnMgr", "ConnMgr", mc(ctx, "MC_conns.cfg"), timeout=600, **W)
+    # an address filter: one connection comes from outside AllowedIPs
+    ctx.tlc_exhaustive("ConnMgr", "ConnMgr", mc(ctx, "MC_acl.cfg", denied="{1}"), timeout=600, **W)
     ctx.tlc_exhaustive("ConnMgr", "ConnMgr", mc(ctx, "MC_stops.cfg", conns="{1}", stops="{1, 2}", nfs="{1}"), timeout=600, **W)
     # requests that take time: Close / Stop while one executes in the worker pool, the idle reaper and a call in progress
     # (the application's own server; measured: one slow connection 2.2e4 states, a slow and a fast one 1.1e6)
@@ -83,7 +87,8 @@ def exhaustive(ctx):
     ctx.cov["exhaustive"] = True
     nv = [("StopNoWait", dict(conns="{1}", stops="{1, 2}", nfs="{1}"), ("AfterStop", "AfterClose", "NothingAfterStop"))]
     if not q:
-        nv += [("ReleaseBeforePoolStop", dict(conns="{1}", slow="{1}", nfs="{1}", exported="FALSE"), ("AfterClose",)),
+        nv += [("RegisterBeforeAcl", dict(denied="{1}"), ("RefusedUncounted", "CountedOnce", "CountMatches")),
+               ("ReleaseBeforePoolStop", dict(conns="{1}", slow="{1}", nfs="{1}", exported="FALSE"), ("AfterClose",)),
                ("NoRefreshAtRead", dict(slow="{1}", nfs="{}", exported="FALSE"), ("NoReapMidCall", "Bounded", "ServedAreCounted")),
                ("DoubleUnreg", dict(conns="{1}", stops="{1, 2}", nfs="{1}"), ("CountMatches", "CountedOnce")),
                ("NoLimit", dict(), ("Bounded",)),
@@ -223,8 +228,10 @@ def run(ctx):
                        "closes / idle periods, Stop at a random moment, possibly two Stops at once), stoprace (8 clients connecting while "
                        "Stop runs), export (server started by AbsfsNFS.Export, Close / Unexport stop it), managed (handles and caches "
                        "filled through the wire, Stop, then Close / Unexport repeated), stopbusy / closebusy (Stop resp. Close called "
-                       "while requests execute in the backend for 0.3 s), midcall (MaxConnections 1, IdleTimeout 1 s: quiet 0.9 s, then a "
-                       "call the backend holds 0.65 s while other clients try to connect). Every history ends with probes of all "
+                       "while requests execute in the backend for 0.3 s), midcall (MaxConnections 1, IdleTimeout 1 s: quiet 0.8 s, then a "
+                       "call the backend holds 0.8 s while other clients try to connect), acl (AllowedIPs 127.0.0.1, attempts from 127.0.0.2-4 "
+                       "then allowed clients up to the limit); the idle history runs with rate limiting on, one connection's last call is "
+                       "refused by the limiter. Every history ends with probes of all "
                        "connections, a new dial, a goroutine census and repeated Stop / Close / Unexport. A history is non-trivial when "
                        "a connection was rejected at the limit or reaped")
     ctx.cov["spec_actions_covered_by_impl"] = ["Listen", "Dial", "PeerClose", "AccCheck", "AccTake", "AccErr", "Register", "Reject", "Serve",
